@@ -64,7 +64,10 @@ type ReducedGraph interface {
 	Structure() [][]graph.Node
 
 	// Expanded returns the next lower level of the
-	// module clustering or nil if at the lowest level.
+	// module clustering. At the lowest level the
+	// returned value holds a nil pointer of the
+	// concrete type of the receiver; it does not
+	// compare equal to nil.
 	//
 	// The returned ReducedGraph will be the same
 	// concrete type as the receiver.
@@ -179,7 +182,10 @@ type ReducedMultiplex interface {
 	Structure() [][]graph.Node
 
 	// Expanded returns the next lower level of the
-	// module clustering or nil if at the lowest level.
+	// module clustering. At the lowest level the
+	// returned value holds a nil pointer of the
+	// concrete type of the receiver; it does not
+	// compare equal to nil.
 	//
 	// The returned ReducedGraph will be the same
 	// concrete type as the receiver.
